@@ -238,8 +238,8 @@ Definition push_anchor (a : ganchor) (g : giov) : giov :=
 
 (* the anchored-input idiom (Decoder::decode_anchored, StreamReader): bytes read into the iovec's own arena
    with ByteArena::read_n, the resulting slice pushed, then its anchor pushed *)
-Definition anchored_slice (h : heap) (got : list N) (g : giov) : option gsl :=
-  match arena_read_n h (gcache_ g) got (nlen got) with Some (_, _, s, _) => Some s | None => None end.
+Definition anchored_slice (h : heap) (got : list N) (count : N) (g : giov) : option gsl :=
+  match arena_read_n h (gcache_ g) got count with Some (_, _, s, _) => Some s | None => None end.
 
 (* register_patch: the Backref handle (None = the empty one) *)
 Definition register_patch (h : heap) (pattern : list N) (g : giov) : option (heap * giov * option gbackref) :=
@@ -419,6 +419,18 @@ Definition clear (g : giov) : giov :=
 Definition set_cache (k : option gcache) (g : giov) : giov :=
   {| gslices := gslices g; ganchors := ganchors g; glogical := glogical g; gcsize := gcsize g;
      gcslices := gcslices g; gcache_ := k; gbackrefs := gbackrefs g |}.
+(* the same with a reader that delivers only a prefix `got` of the `count` bytes asked for (short read, end of file) *)
+Definition anchored_n (h : heap) (got : list N) (count : N) (g : giov) : option (heap * giov) :=
+  match arena_read_n h (gcache_ g) got count with
+  | None => None
+  | Some (h1, k1, s, a) =>
+    let g1 := set_cache k1 g in
+    if sl_len s =? 0 then Some (h1, g1)
+    else match push h1 s g1 with
+         | None => None
+         | Some (h2, g2) => Some (h2, push_anchor a g2)
+         end
+  end.
 Definition anchored (h : heap) (got : list N) (g : giov) : option (heap * giov) :=
   match arena_read_n h (gcache_ g) got (nlen got) with
   | None => None
